@@ -55,12 +55,18 @@ from radical.pilot.agent.scheduler.base        import \
 from radical.pilot.agent.executing.base        import \
                                           AgentExecutingComponent  # noqa: E402
 
-from radical.pilot.pmgr.launching.psi_j        import \
-                                          PilotLauncherPSIJ  # noqa: E402
+# psi_j.py switches the root logger to DEBUG before it imports psij: import
+# psij first, quietly, and reset the level afterwards
+import logging                                                     # noqa: E402
 try:
     import psij as _psij                                           # noqa: E402
 except ImportError:
     _psij = None
+from radical.pilot.pmgr.launching.psi_j        import \
+                                          PilotLauncherPSIJ  # noqa: E402
+logging.getLogger().setLevel(logging.ERROR)
+logging.getLogger('psij').setLevel(logging.ERROR)
+_JEX = dict()      # psij executors, one per batch system and process
 
 RP_DIR   = os.path.dirname(os.path.abspath(rp.__file__))
 CFG_DIR  = os.path.join(RP_DIR, 'configs')
@@ -657,7 +663,7 @@ def check_resolution(w, part, label, schema, rcfg, raw):
         want = {'fork': 'local', 'pbspro': 'pbs'}.get(batch[0], batch[0])
         lnch = PilotLauncherPSIJ.__new__(PilotLauncherPSIJ)
         lnch._log  = _LOG
-        lnch._jex  = dict()
+        lnch._jex  = _JEX
         lnch._job_status_cb = lambda *a, **k: None
         got = ok = None
         try:
